@@ -92,6 +92,9 @@ enum Upper {
     EchoReq { id: u16, len: usize },
     EchoRep { id: u16, len: usize },
     IcmpErr { ty: u8, q: Quoted, len: usize },
+    /// NDISC neighbor solicitation / advertisement: target, link-layer address option, hop limit
+    Ns { tgt: Ip, ll: Ll, hl: u8 },
+    Na { tgt: Ip, ll: Ll, hl: u8 },
     Igmp,
     Other { proto: u8, len: usize },
 }
@@ -209,6 +212,8 @@ fn upper_s(u: &Upper) -> String {
             },
             len
         ),
+        Upper::Ns { tgt, ll, hl } => format!("ns {} {} {}", ip_s(tgt), ll_s(ll), hl),
+        Upper::Na { tgt, ll, hl } => format!("na {} {} {}", ip_s(tgt), ll_s(ll), hl),
         Upper::Igmp => "igmp".into(),
         Upper::Other { proto, len } => format!("other {} {}", proto, len),
     }
@@ -230,6 +235,8 @@ fn upper_p(t: &[&str]) -> Upper {
             };
             Upper::IcmpErr { ty: t[1].parse().unwrap(), q, len: t[3].parse().unwrap() }
         }
+        "ns" => Upper::Ns { tgt: ip_p(t[1]), ll: ll_p(t[2]), hl: t[3].parse().unwrap() },
+        "na" => Upper::Na { tgt: ip_p(t[1]), ll: ll_p(t[2]), hl: t[3].parse().unwrap() },
         "igmp" => Upper::Igmp,
         "other" => Upper::Other { proto: t[1].parse().unwrap(), len: t[2].parse().unwrap() },
         x => panic!("upper {}", x),
@@ -532,6 +539,24 @@ fn build_upper(rx: &Rx) -> (u8, Vec<u8>) {
                 (58, b)
             }
         }
+        Upper::Ns { tgt, ll, .. } | Upper::Na { tgt, ll, .. } => {
+            let lladdr = match ll {
+                Ll::Eth(m) => Some(RawHardwareAddress::from(HardwareAddress::Ethernet(eth_of(*m)))),
+                Ll::Ext(m) => Some(RawHardwareAddress::from(HardwareAddress::Ieee802154(Ieee802154Address::Extended(m.to_be_bytes())))),
+                Ll::Short(m) => Some(RawHardwareAddress::from(HardwareAddress::Ieee802154(Ieee802154Address::Short(m.to_be_bytes())))),
+                Ll::None => None,
+            };
+            let nd = if matches!(rx.upper, Upper::Ns { .. }) {
+                NdiscRepr::NeighborSolicit { target_addr: v6of(tgt), lladdr }
+            } else {
+                NdiscRepr::NeighborAdvert { flags: NdiscNeighborFlags::SOLICITED, target_addr: v6of(tgt), lladdr }
+            };
+            let r = Icmpv6Repr::Ndisc(nd);
+            let (s6, d6) = (v6of(&rx.src), v6of(&rx.dst));
+            let mut b = vec![0u8; r.buffer_len()];
+            r.emit(&s6, &d6, &mut Icmpv6Packet::new_unchecked(&mut b[..]), &csum_caps());
+            (58, b)
+        }
         Upper::Igmp => {
             let r = IgmpRepr::MembershipReport { group_addr: Ipv4Address::new(224, 9, 9, 9), version: IgmpVersion::Version2 };
             let mut b = vec![0u8; r.buffer_len()];
@@ -578,7 +603,11 @@ fn build_ip(rx: &Rx) -> Vec<u8> {
                 proto
             };
             payload.extend_from_slice(&up);
-            let r = Ipv6Repr { src_addr: v6of(&rx.src), dst_addr: v6of(&rx.dst), next_header: IpProtocol::from(nh), payload_len: payload.len(), hop_limit: 64 };
+            let hop_limit = match rx.upper {
+                Upper::Ns { hl, .. } | Upper::Na { hl, .. } => hl,
+                _ => 64,
+            };
+            let r = Ipv6Repr { src_addr: v6of(&rx.src), dst_addr: v6of(&rx.dst), next_header: IpProtocol::from(nh), payload_len: payload.len(), hop_limit };
             let mut b = vec![0u8; 40 + payload.len()];
             r.emit(&mut Ipv6Packet::new_unchecked(&mut b[..]));
             b[40..].copy_from_slice(&payload);
